@@ -99,7 +99,8 @@ class ModuleInfo:
         self.path = path
         self.relpath = relpath
         self.source = source
-        self.tree = ast.parse(source, filename=path)
+        from .desugar import desugar
+        self.tree, self.desugared = desugar(ast.parse(source, filename=path))     # reflective attribute idioms normalised (desugar.py)
         self.imports = {}      # alias -> module name
         self.from_imports = {}  # local name -> (module name, remote name)
         self.star_imports = []
@@ -688,8 +689,17 @@ class Project:
             if isinstance(st, ast.Expr) and isinstance(st.value, ast.Call):
                 call = st.value
                 f = call.func
+                if isinstance(f, ast.Name) and f.id == "setattr" and len(call.args) == 3 and isinstance(call.args[0], ast.Name) and call.args[0].id == init.params[0]:
+                    nm = self._ctor_bind(call.args[1], env)
+                    if nm[0] == "const" and isinstance(nm[1], str):
+                        out[nm[1]] = self._ctor_bind(call.args[2], env)
+                    continue
                 if isinstance(f, ast.Attribute) and f.attr == "__init__":
-                    base = self.resolve_class_expr(f.value, mod)
+                    if isinstance(f.value, ast.Call) and isinstance(f.value.func, ast.Name) and f.value.func.id == "super":
+                        c0 = self.resolve_class_expr(f.value.args[0], mod) if f.value.args else init.cls
+                        base = next((c for c in (self.mro(c0)[1:] if c0 is not None else []) if "__init__" in c.methods), None)
+                    else:
+                        base = self.resolve_class_expr(f.value, mod)
                     if base is None:
                         continue
                     binit = self.resolve(base, "__init__")
@@ -708,8 +718,15 @@ class Project:
                     self._ctor_walk(binit, benv, out, depth + 1)
             elif isinstance(st, ast.Assign):
                 for t in st.targets:
-                    if isinstance(t, ast.Attribute) and isinstance(t.value, ast.Name) and t.value.id == "self":
-                        out[t.attr] = self._ctor_bind(st.value, env)
+                    pairs = [(t, st.value)]
+                    if isinstance(t, (ast.Tuple, ast.List)) and isinstance(st.value, (ast.Tuple, ast.List)) and len(t.elts) == len(st.value.elts):
+                        pairs = list(zip(t.elts, st.value.elts))       # self.a, self.b = x, y
+                    bound = [(tt, self._ctor_bind(vv, env)) for tt, vv in pairs]
+                    for tt, b in bound:
+                        if isinstance(tt, ast.Attribute) and isinstance(tt.value, ast.Name) and tt.value.id == init.params[0]:
+                            out[tt.attr] = b
+                        elif isinstance(tt, ast.Name):
+                            env[tt.id] = b                                # local name: later uses see its binding
 
 
 # ---------------------------------------------------------------------- constant folding
